@@ -127,6 +127,10 @@ def build_runs(tier, seed, prop):
     for r in runs:
         r["src"] = "random-config"
     runs += scenarios_run.runs_for(prop, tier, seed)
+    if prop in ("C05", "C06", "C09", "C10", "C11"):
+        # spec -> code: TLC behaviours of PamsRunner forced through the real runner (all draws and agent programs)
+        from . import replay_run
+        runs += replay_run.runs(tier, seed)
     if prop == "C09":
         # "no fill in a session without execution, whatever events are configured": runs with the built-in events
         from . import drive_events
@@ -254,6 +258,9 @@ def check(prop, tier, seed, t0):
         "trace_validation_wall_s": round(wall, 1),
     }
     cov.update(counts)
+    if prop in ("C05", "C06", "C09", "C10", "C11"):
+        from . import replay_run
+        cov["spec_to_code_replay"] = dict(replay_run.last_stats)
     evidence.write(prop, tier, seed, "model_checking", cov, ASSUMPTIONS, time.time() - t0, viol)
     print("%s tier=%s: design states=%d, runs=%d, events=%d, violations=%d, known=%d (%.0fs)" % (
         prop, tier, cov["states"], len(runs), nev, viol, known, time.time() - t0))
